@@ -104,7 +104,7 @@ pub const ELEM_CLASSES: &[NameClass] = &[
         tag: "trap",
         names: &["text", "text_content", "foo_1", "type_attr", "r_type", "text_1", "a_attr", "foo_attr", "Text", "a_1", "a_type", "foo_2", "foo-2", "foo.1", "a_2", "text_content_1", "foo_3", "a_3"],
     },
-    NameClass { tag: "nonascii", names: &["é", "Ж", "жж", "λ", "名", "ñu", "Éa", "жЖ", "名前", "über", "ab名前", "é名前", "Идентификатор"] },
+    NameClass { tag: "nonascii", names: &["é", "Ж", "жж", "λ", "名", "ñu", "Éa", "жЖ", "名前", "über", "ab名前", "é名前", "Идентификатор", "КАТАЛОГ", "ТОВАР", "AÑo", "ÉCOLE", "ÜBER"] },
     NameClass { tag: "digit", names: &["a1", "a2b", "x10", "A1", "b2", "a1b2", "h1", "H1"] },
     NameClass {
         tag: "long",
